@@ -182,6 +182,30 @@ func refEvents(fi *FuncInfo) func(n ast.Node) []Event {
 					as = append(as, refRole(info, fi.Decl, a))
 				}
 				out = append(out, Event{Kind: f.Name() + "(" + strings.Join(as, ",") + ")", Node: call})
+			default:
+				// a helper that wraps counter events (extracted from a caller): its
+				// summary is spliced in with the caller's arguments
+				if f == fi.Obj {
+					continue
+				}
+				sum, okSum := refHelperSummary(f)
+				if !okSum {
+					out = append(out, Event{Kind: "opaque-helper:" + f.Name(), Node: call})
+					continue
+				}
+				if len(sum) == 0 {
+					continue
+				}
+				roles := map[string]string{}
+				if se, ok := ast.Unparen(call.Fun).(*ast.SelectorExpr); ok {
+					roles["recv"] = refRole(info, fi.Decl, se.X)
+				}
+				for i, a := range call.Args {
+					roles["p"+itoa(i)] = refRole(info, fi.Decl, a)
+				}
+				for _, k := range sum {
+					out = append(out, Event{Kind: substRoles(k, roles), Node: call})
+				}
 			}
 		}
 		return out
@@ -930,23 +954,40 @@ func ruleCounterPrimitives(c *Ctx) {
 			}
 			why = "expected: if counter == 0 return; counter--"
 		case "ref":
-			good = false
+			// every return yields a formula equivalent to counter[i] > 0 (locals
+			// holding the comparison are inlined by the translator)
+			good = true
+			nret := 0
+			uq := 0
+			xl := &condXlat{info: info, fd: fi.Decl, uniq: &uq}
+			counter := recvName(fi) + ".refCounts." + t.fld + "[" + p0.Name() + "]"
 			inspectNoFuncLit(fi.Decl.Body, func(m ast.Node) bool {
-				if rs, ok := m.(*ast.ReturnStmt); ok && len(rs.Results) == 1 {
-					if be, ok := ast.Unparen(rs.Results[0]).(*ast.BinaryExpr); ok {
-						if v, isC := constInt(info, be.Y); isC && v == 0 && be.Op == token.GTR && onField(be.X) {
-							good = true
-						}
-						if v, isC := constInt(info, be.Y); isC && v == 0 && be.Op == token.NEQ && onField(be.X) {
-							good = true
-						}
-						if v, isC := constInt(info, be.Y); isC && v == 1 && be.Op == token.GEQ && onField(be.X) {
-							good = true
-						}
-					}
+				rs, ok := m.(*ast.ReturnStmt)
+				if !ok {
+					return true
+				}
+				nret++
+				if len(rs.Results) != 1 {
+					good = false
+					return true
+				}
+				lit, isLit := xl.formula(rs.Results[0]).(*FLit)
+				if !isLit {
+					good = false
+					return true
+				}
+				zk, zflip := orderAtom(counter, "const:0")
+				ok0 := lit.Atom == zk && (lit.Mask == maskFor(token.GTR, zflip) || lit.Mask == maskFor(token.NEQ, zflip))
+				ok1 := false
+				if k1, f1 := orderAtom(counter, "const:1"); lit.Atom == k1 {
+					ok1 = lit.Mask == maskFor(token.GEQ, f1)
+				}
+				if !ok0 && !ok1 {
+					good = false
 				}
 				return true
 			})
+			good = good && nret >= 1
 			why = "expected: return counter[" + p0.Name() + "] > 0"
 		}
 		c.check(good, rule, fi.Name, "shape", c.P.pos(fi.Decl.Pos()), t.kind+" of "+t.fld+"["+p0.Name()+"]", "counter primitive deviates: "+why)
@@ -972,13 +1013,33 @@ func ruleCounterCallers(c *Ctx) {
 		for _, cl := range cg.callersOf(fi.Obj) {
 			dn := displayName(cl)
 			all = append(all, dn)
-			ok := false
-			for _, a := range allow[name] {
-				if a == dn {
-					ok = true
+			// an audited function, or a helper all of whose callers are audited (its
+			// effect is then accounted at those call sites through its summary)
+			var okCaller func(f *types.Func, depth int) bool
+			okCaller = func(f *types.Func, depth int) bool {
+				for _, a := range allow[name] {
+					if a == displayName(f) {
+						return true
+					}
 				}
+				if depth >= 3 {
+					return false
+				}
+				if _, decidable := refHelperSummary(f); !decidable {
+					return false
+				}
+				cs := cg.callersOf(f)
+				if len(cs) == 0 {
+					return false
+				}
+				for _, c2 := range cs {
+					if c2 == f || !okCaller(c2, depth+1) {
+						return false
+					}
+				}
+				return true
 			}
-			if !ok {
+			if !okCaller(cl, 0) {
 				bad = append(bad, dn)
 			}
 		}
@@ -1032,4 +1093,113 @@ func ruleCounterCallers(c *Ctx) {
 		c.Sites += n
 		c.check(len(bad) == 0 && n >= 2, rule, "rib.niRefCounter", "writers of "+fld, "-", fmt.Sprintf("%d writes, all inside the inc/dec primitives or the holder's constructor", n), "reference counter "+fld+" written outside the audited primitives: "+strings.Join(bad, ", ")+" — counts of references held by entries elsewhere would be lost")
 	}
+}
+
+// maskFor: the mask over {<,=,>} of "a op b" for the atom built by orderAtom(a, b).
+func maskFor(op token.Token, flipped bool) uint8 {
+	m := opMask[op]
+	if flipped {
+		m = flipMask(m)
+	}
+	return m
+}
+
+// ---- summaries of helpers wrapping reference events --------------------------------
+
+var refSummaryMemo = map[*types.Func][]string{}
+var refSummaryOK = map[*types.Func]bool{}
+var refSummaryBusy = map[*types.Func]bool{}
+
+// refHelperSummary: the reference events a rib helper performs, in terms of
+// its own roles (recv, p0, …). Decidable when every path that returns a nil
+// error (or has no error result) performs the same events and every failing
+// path performs none. Functions without counter events have the empty summary.
+func refHelperSummary(f *types.Func) ([]string, bool) {
+	if s, ok := refSummaryMemo[f]; ok {
+		return s, refSummaryOK[f]
+	}
+	if refSummaryBusy[f] || gProg == nil {
+		return nil, true
+	}
+	fi := gProg.infoFor(f)
+	if fi == nil || fi.Decl.Body == nil {
+		return nil, true
+	}
+	// cheap pre-check: mentions a counter primitive or reference handler at all?
+	mentions := false
+	info := fi.Pkg.TypesInfo
+	for _, call := range callsIn(fi.Decl.Body) {
+		if g, ok := calleeObj(info, call).(*types.Func); ok && g.Pkg() != nil && g.Pkg().Path() == ribPkg {
+			switch g.Name() {
+			case "incNHGRefCount", "decNHGRefCount", "incNHRefCount", "decNHRefCount", "handleReferences", "handleNHGReferences":
+				mentions = true
+			}
+		}
+	}
+	if !mentions {
+		refSummaryMemo[f], refSummaryOK[f] = nil, true
+		return nil, true
+	}
+	refSummaryBusy[f] = true
+	defer delete(refSummaryBusy, f)
+	paths, pe := enumFunc(fi, refEvents(fi), nil)
+	ok := !pe.overflow && len(pe.unsup) == 0
+	var sum []string
+	have := false
+	sig := fi.Obj.Type().(*types.Signature)
+	errIdx := -1
+	if n := sig.Results().Len(); n > 0 && types.Identical(sig.Results().At(n-1).Type(), types.Universe.Lookup("error").Type()) {
+		errIdx = n - 1
+	}
+	for _, p := range paths {
+		if p.End == "panic" {
+			continue
+		}
+		var evs []string
+		for _, e := range p.Events {
+			evs = append(evs, e.Kind)
+		}
+		failing := false
+		if rs, isRet := p.EndNode.(*ast.ReturnStmt); isRet && errIdx >= 0 && errIdx < len(rs.Results) {
+			failing = !isNilIdent(info, rs.Results[errIdx])
+		}
+		if failing {
+			if len(evs) > 0 {
+				ok = false
+			}
+			continue
+		}
+		if !have {
+			sum, have = evs, true
+		} else if strings.Join(sum, ";") != strings.Join(evs, ";") {
+			ok = false
+		}
+	}
+	refSummaryMemo[f], refSummaryOK[f] = sum, ok
+	return sum, ok
+}
+
+// substRoles replaces the role tokens (recv, p0, p1, …) of a helper's event by the caller's terms.
+func substRoles(kind string, roles map[string]string) string {
+	var b strings.Builder
+	i := 0
+	for i < len(kind) {
+		if isIdentChar(kind[i]) && (i == 0 || !isIdentChar(kind[i-1]) && kind[i-1] != '.') {
+			j := i
+			for j < len(kind) && isIdentChar(kind[j]) {
+				j++
+			}
+			tok := kind[i:j]
+			if r, ok := roles[tok]; ok {
+				b.WriteString(r)
+			} else {
+				b.WriteString(tok)
+			}
+			i = j
+			continue
+		}
+		b.WriteByte(kind[i])
+		i++
+	}
+	return b.String()
 }
